@@ -515,6 +515,13 @@ func judge(c caseT, w *world, r *dns.Msg, edns bool) (string, string) {
 	if effective(c) {
 		return "tampered-accepted", fmt.Sprintf("tampering %s was effective on a validated path, reply is %s with answers %v", tamperString(c), dns.RcodeToString[r.Rcode], nonSig(r.Answer))
 	}
+	if !zoneSigned(c.Zone) {
+		if k := c.Tamper["answer"]; k != "" && k != "none" {
+			// an unsigned zone has no signer: tampering with its answers is outside
+			// the statement ("a name under an unbroken signed chain"); C07 covers it
+			return "", ""
+		}
+	}
 	// must be exactly what the signer published
 	if r.Rcode != wantRcode {
 		return "wrong-rcode", fmt.Sprintf("rcode %s, the zone says %s (%s)", dns.RcodeToString[r.Rcode], dns.RcodeToString[wantRcode], truth.Kind)
